@@ -1,4 +1,5 @@
 import PlcProofs.Lemmas.Climb
+import PlcProofs.Lemmas.MirrorExpr
 import PlcModel.Parse.Pou
 
 /-!
@@ -12,6 +13,14 @@ What is proved here:
   `Parse.climb`/`Parse.climbLoop` mirror — parses the minimal-parenthesis printing of *every*
   expression tree, of any depth, back to that tree, for *every* assignment of precedences to
   left-associative operators (hence for the generated table): nothing is re-associated;
+
+* `mirror_expression_roundtrip` — the same round trip for the **mirror itself**: the functions
+  `Parse.expression / climb / climbLoop / atom / unaryExpression / primaryExpression` that the
+  correspondence check runs against `parse_program`, driven by `Gen.prec`, read the minimal-parenthesis
+  token list of every expression tree over names, unary and binary operators (any size, any depth) back to
+  exactly the tree the grammar actions build for it, with the fuel the driver really uses
+  (`Parse.fuelFor`); `mirror_reads_any_parenthesisation` is the general form (redundant parentheses
+  anywhere leave no node);
 
 The executable mirror of the whole grammar (`PlcModel/Parse/*.lean`) is tied to `parse_program` by
 the correspondence check (every fixture, every production of the reference grammar, every ordered
@@ -45,6 +54,42 @@ theorem climbing_roundtrip (e : Climb.Expr) (rest : List Climb.Tok) (h : Climb.N
 theorem climbing_fuel_monotone (f k m : Nat) (ts : List Climb.Tok) (r : Climb.Res)
     (h : Climb.parseE f m ts = r) (hr : r ≠ .oof) : Climb.parseE (f + k) m ts = r :=
   Climb.monoE f k m ts r h hr
+
+/-- what may follow an expression: a token that is no operator of the table, no `#`, `(`, `[`, `.` and no layout
+(`;`, `THEN`, `)`, `,`, `DO`, … all qualify) -/
+def Ends (rest : List Item) : Prop :=
+  ∀ t ts, rest = t :: ts → MX.okNext t.ty = true ∧ ∀ row ∈ Gen.prec, t.ty ≠ row.token
+
+/-- **Round trip through the parser mirror**, for every expression tree over the generated precedence table. -/
+theorem mirror_expression_roundtrip (lp rp : Item) (hlp : lp.ty = "LeftParen") (hrp : rp.ty = "RightParen")
+    (e : MX.E) (he : e.Ok) (rest : List Item) (hrest : Ends rest) :
+    Parse.expression (Parse.fuelFor ((MX.E.pr lp rp 0 e).toks ++ rest).length) ((MX.E.pr lp rp 0 e).toks ++ rest)
+      = some (e.sx, rest) := by
+  rw [← MX.E.pr_sx lp rp e 0]
+  apply MX.expression_reads _ rest _ (MX.E.pr_wf lp rp hlp hrp e he 0) hrest
+  apply MX.fuelFor_enough
+  simp
+
+/-- General form: any token list of the expression syntax `MX.S` that respects the levels (`WF 0`: an
+un-parenthesised operator binds at least as tightly as its position requires; parentheses may be added
+anywhere) is read as its tree, the parentheses leaving no node. -/
+theorem mirror_reads_any_parenthesisation (s : MX.S) (hs : s.WF 0) (rest : List Item) (hrest : Ends rest) :
+    Parse.expression (Parse.fuelFor (s.toks ++ rest).length) (s.toks ++ rest) = some (s.sx, rest) := by
+  apply MX.expression_reads s rest _ hs hrest
+  apply MX.fuelFor_enough
+  simp
+
+/-- non-vacuity: `- a + b * c` over rows 9 (`+`, level 5) and 11 (`*`, level 6) of the generated table meets `Ok`,
+and `;` meets `Ends` -/
+example : (MX.E.bin ⟨5, "Plus", "binary", "Operator", "Add", true⟩ ⟨false, "Plus", 0, 0, 0, 0, ['+']⟩
+            (.un ⟨false, "Minus", 0, 0, 0, 0, ['-']⟩ true (.leaf ⟨false, "Identifier", 0, 0, 0, 0, ['a']⟩))
+            (.bin ⟨6, "Star", "binary", "Operator", "Mul", true⟩ ⟨false, "Star", 0, 0, 0, 0, ['*']⟩
+              (.leaf ⟨false, "Identifier", 0, 0, 0, 0, ['b']⟩) (.leaf ⟨false, "Identifier", 0, 0, 0, 0, ['c']⟩))).Ok := by
+  exact ⟨by decide, by decide, ⟨by decide, rfl⟩, by decide, by decide, rfl, rfl⟩
+example : Ends [⟨false, "Semicolon", 0, 0, 0, 0, [';']⟩] := by
+  intro t ts h
+  cases h
+  exact ⟨by decide, by decide⟩
 
 /-! ### non-vacuity: concrete trees over the generated table's levels
 (`+`,`-` at level 5 and `*` at level 6).  The executable mirror itself is evaluated by the compiled
